@@ -318,7 +318,11 @@ def build_harness(name, source, config, extra=None, timeout=900, deps=None):
     """compile one harness source against /repo's current headers; cached by content hash.
     returns (exe or None, compiler output)"""
     flags = BASE_FLAGS + CONFIGS[config] + (extra or [])
-    key = hashlib.sha256((repo_lib_hash() + tree_hash([source] + (deps or []) + [os.path.join(VERIF, 'harness', 'vh.hpp')] if os.path.exists(os.path.join(VERIF, 'harness', 'vh.hpp')) else [source] + (deps or [])) + ' '.join(flags)).encode()).hexdigest()[:16]
+    alldeps = [source] + list(deps or [])
+    io = os.path.join(VERIF, 'harness', 'vh_io.hpp')
+    if io not in alldeps:
+        alldeps.append(io)
+    key = hashlib.sha256((repo_lib_hash() + tree_hash(alldeps) + ' '.join(flags) + CXX).encode()).hexdigest()[:16]
     d = os.path.join(BUILD, 'harness')
     os.makedirs(d, exist_ok=True)
     exe = os.path.join(d, f'{name}.{config}.{key}')
